@@ -77,7 +77,7 @@ TABLE = {
     'C19': (True, 'symbolic execution of _format_uncertainty / __format__ / _extract_val_and_dval with a decimal-rounding contract for float formatting (token digits bound to z3 integers) and a case split for floor(log10); SMT (linear integer/real arithmetic)',
             'For every real value and every positive error in the exponent range, significance 1..6 and flags "", "+", " ": value and error are recovered from the printed string within half a unit of the last printed digit, the error has '
             'the requested number of significant digits, flags only prepend their character, CObs prints both parts, prior strings give exactly the parsed value and error, and comparisons / n-sigma test / plottable use value and dvalue.',
-            'Claim over the reals: libm log10 at powers of ten and binary rounding inside printf are outside; bare flags without significance are not covered by the statement.'),
+            'Claim over the reals: libm log10 at powers of ten and binary rounding inside printf are outside.'),
     'C17': (True, 'symbolic execution of the openQCD binary readers on a typed-buffer file model (every stored double a distinct z3 symbol, directory listing order a parameter); z3 normal-form / SMT equality with the documented reduction per record',
             'read_rwms (1.4/1.6/2.0), read_qtop/_read_flow_obs (openQCD) and read_ms5_xsf are proven to attach to every replica name and configuration number exactly the documented reduction of the numbers stored in that record, '
             'for all stored values, over replica sets with differing digit counts, all listing permutations, several factors / sources / flow times / correlators and r_start / r_stop / r_step selections.',
